@@ -46,8 +46,21 @@ pub fn child(args: &Args) -> i32 {
         mark("open");
         let mut sut = Sut::open_dir(dir.clone(), 14, 3, None).await.expect("open");
         mark("opened");
+        // every second history runs with another connection to the database held open for its whole length (as a
+        // second server instance on the same directory would): then closing a request's connection does not
+        // checkpoint, and durability of an acknowledged request rests on the commit's own sync of the WAL
+        let hold = match args.get("hold", "auto").as_str() { "1" => true, "0" => false, _ => hi % 2 == 1 };
+        let _held = if hold {
+            let db = std::fs::read_dir(&dir).ok().and_then(|rd| rd.filter_map(|e| e.ok()).map(|e| e.path()).find(|p| p.extension().map(|x| x == "sqlite3").unwrap_or(false)));
+            db.and_then(|p| rusqlite::Connection::open(p).ok()).map(|c| {
+                let _: Result<i64, _> = c.query_row("SELECT count(*) FROM clients", [], |r| r.get(0));
+                c
+            })
+        } else {
+            None
+        };
         let mut out = Out { w: &mut w, nlines: 0 };
-        out.line(&format!("run h={hi} setup=crash:sql backend=sql entry=http days=14 versions=3 clients={}", hist.clients.iter().map(|c| c.to_string()).collect::<Vec<_>>().join(",")));
+        out.line(&format!("run h={hi} setup=crash:sql backend=sql entry=http days=14 versions=3 held={} clients={}", _held.is_some() as u8, hist.clients.iter().map(|c| c.to_string()).collect::<Vec<_>>().join(",")));
         let mut known = Known::new(hist.clients.clone());
         for c in &hist.clients {
             known.note(*c);
